@@ -23,12 +23,17 @@ inductive Kind
   | afterClose   -- `A`  the peer closed the socket before the call / `K` while the call was about to write
   | dropped      -- `P_`, `W` the owner drops the call future
   | foreign      -- `F`  answers to the call's numbers under a foreign node name (tag 6); delivery is not judged
+  | traced       -- `T`  answers once, with the trace-token form of SEND (SEND_TT)
+  | shape        -- `M_` answers once with something that is not a `{rex, Result}` pair (tag 7)
+  | ignored      -- `Z_` "answers" with a SEND that carries no payload / whose target is not a pid: no reply at all
+  | after        -- `G<j>` answers once, after call `j` is over
 deriving DecidableEq, Repr
 
 /-- what a call returned -/
 inductive Out
   | reply (tag : Nat)
   | garbage      -- `Ok` with something that is not one of the harness's replies
+  | badShape     -- the wrapper's conversion error
   | timeout | cancelled | noConn | sendErr | dropped | other
 deriving DecidableEq, Repr
 
@@ -36,12 +41,13 @@ def Kind.ofCode (s : String) : Option Kind :=
   if s == "R" then some .reply else if s == "D" then some .dup else if s == "E" then some .dupLate
   else if s == "N" then some .never else if s == "L" then some .late else if s.startsWith "U" then some .unknown
   else if s == "X" then some .race else if s == "C" then some .noConn else if s == "S" then some .sendErr
-  else if s == "F" then some .foreign else if s == "A" || s == "K" then some .afterClose else if s.startsWith "P" || s == "W" then some .dropped
+  else if s == "F" then some .foreign else if s == "T" then some .traced
+  else if s.startsWith "M" then some .shape else if s.startsWith "Z" then some .ignored else if s.startsWith "G" then some .after else if s == "A" || s == "K" then some .afterClose else if s.startsWith "P" || s == "W" then some .dropped
   else none
 
 def Out.ofText (s : String) : Out :=
   if s == "timeout" then .timeout else if s == "cancelled" then .cancelled else if s == "noconn" then .noConn
-  else if s == "senderr" then .sendErr else if s == "dropped" then .dropped
+  else if s == "senderr" then .sendErr else if s == "dropped" then .dropped else if s == "badshape" then .badShape
   else if s.startsWith "reply:" then
     match (s.drop 6).toString.toNat? with
     | some n => .reply n
@@ -50,8 +56,13 @@ def Out.ofText (s : String) : Out :=
 
 /-- "each call returns the reply addressed to it and only that one, or a timeout, cancellation or connection error":
 the results call `i` may return, given what the peer did -/
-def admissible (i : Nat) : Kind → Out → Bool
+def admissible (wrapped : Bool) (i : Nat) : Kind → Out → Bool
   | .reply, .reply t => t == 10 * i
+  | .traced, .reply t => t == 10 * i
+  | .after, .reply t => t == 10 * i
+  | .shape, .reply t => !wrapped && t == 10 * i + 7     -- the raw call returns the reply addressed to it as it is
+  | .shape, .badShape => wrapped                       -- the wrapper refuses it: an error of this call, nobody else's
+  | .ignored, .timeout => true
   | .dup, .reply t => t == 10 * i || t == 10 * i + 1
   | .dupLate, .reply t => t == 10 * i            -- the late copy exists only after the call is over
   | .never, .timeout => true
@@ -76,17 +87,41 @@ def replyTags : List Out → List Nat
 
 /-- the whole judgement of one scenario; `fin` = size of the outstanding-call table after all calls are over;
 `procSent`/`procGot` = tags sent to / received by the local process -/
-def judge (kinds : List Kind) (outs : List Out) (fin : Nat) (procSent procGot : List Nat) : Option String :=
+def judge (wrapped : Bool) (kinds : List Kind) (outs : List Out) (fin : Nat) (procSent procGot : List Nat) : Option String :=
   if kinds.length ≠ outs.length then some "FAIL arity"
   else
     let bad := (List.range kinds.length).filter fun i =>
       match kinds[i]?, outs[i]? with
-      | some k, some o => !admissible i k o
+      | some k, some o => !admissible wrapped i k o
       | _, _ => true
     if let i :: _ := bad then some s!"FAIL call {i} returned a result it must not return"
     else if ¬ (replyTags outs).Nodup then some "FAIL one reply returned to two calls"
     else if fin ≠ 0 then some s!"FAIL {fin} entries left in the outstanding-call table after every call was over"
     else if procGot ≠ procSent then some "FAIL the local process did not get exactly its messages"
     else none
+
+/-! ### what a call asks for (written from the `rex` protocol and the Erlang reference manual, not from the code)
+
+A `rex` server is sent `{From, {call, Module, Function, Args, GroupLeader}}` under the registered name `rex`
+(control `{6, FromPid, '', rex}`) and answers `{rex, Result}` to `From`. The `erlang_*` conveniences stand for the BIFs
+`erlang:system_info(Item)`, `erlang:statistics(Item)`, `erlang:memory()`, `erlang:processes()`,
+`erlang:process_info(Pid, ItemList)`, `erlang:list_to_pid(String)`. -/
+
+/-- the BIF and the argument list an `erlang_*` function stands for; `params` as handed to the function: a text
+parameter as (its UTF-8 bytes, its characters), others as whatever the driver made of them -/
+inductive Param (α : Type)
+  | text (utf8 : List UInt8) (chars : List Nat)
+  | other (x : α)
+
+def erlangCall {α : Type} (atom : List UInt8 → α) (str : List Nat → α) (name : String) (ps : List (Param α)) :
+    Option (String × List α) :=
+  match name, ps with
+  | "erlang_system_info", [.text b _] => some ("system_info", [atom b])
+  | "erlang_statistics", [.text b _] => some ("statistics", [atom b])
+  | "erlang_memory", [] => some ("memory", [])
+  | "erlang_processes", [] => some ("processes", [])
+  | "erlang_process_info", [.other pid, .other items] => some ("process_info", [pid, items])
+  | "erlang_list_to_pid", [.text _ cs] => some ("list_to_pid", [str cs])
+  | _, _ => none
 
 end Edp.Spec.Rpc
